@@ -112,7 +112,9 @@ def f_max_streams(v, uni=False, w=None): return bytes([0x13 if uni else 0x12]) +
 def f_data_blocked(v, w=None): return b"\x14" + varint(v, w)
 def f_stream_data_blocked(sid, v, w=None): return b"\x15" + varint(sid, w) + varint(v, w)
 def f_streams_blocked(v, uni=False, w=None): return bytes([0x17 if uni else 0x16]) + varint(v, w)
-def f_new_cid(seq, retire, cid, token, w=None): return b"\x18" + varint(seq, w) + varint(retire, w) + bytes([len(cid)]) + cid + token
+def f_new_cid(seq, retire, cid, token, w=None, w2=None):
+    # w: width of Sequence Number, w2: width of Retire Prior To (default: the same)
+    return b"\x18" + varint(seq, w) + varint(retire, w if w2 is None else (w2 or None)) + bytes([len(cid)]) + cid + token
 def f_retire_cid(seq, w=None): return b"\x19" + varint(seq, w)
 def f_path_challenge(d): return b"\x1a" + d
 def f_path_response(d): return b"\x1b" + d
@@ -533,7 +535,9 @@ class QuicConn:
                 self.features.add("cid_prefix_related")
             seq = len(self.issued[d]) + 1
             self.issued[d].append(cid)
-            self.dgram(d, self.packet("app", d, f_new_cid(seq, 0, cid, rbytes(rnd, 16))))
+            # the two variable-length integers of the frame may be encoded in different widths (a connection that has issued 64
+            # connection IDs does so with minimal encodings: sequence number 64 in two bytes, retire-prior-to still in one)
+            self.dgram(d, self.packet("app", d, f_new_cid(seq, 0, cid, rbytes(rnd, 16), st.get("w"), st.get("w2", 0) if st.get("w") else None)))
             self.features.add("ncid")
             return
         if op == "rebind":
